@@ -206,6 +206,20 @@ CHECKS = [
   "design_ref": "DESIGN.md §6 C15",
   "note": TB + " The goroutine model is tied by skeleton facts and profile observation, not by trace replay.",
   "technique": "Lean 4 theorems (context derivation, ranking function + progress over the goroutine model) + regenerated skeleton facts + goroutine-profile observation + hook-trace inclusion"},
+ {"property_id": "C16",
+  "text": "Theorems over a family of Jrpc.Corr endpoints (one per connection): the reverse client found in a handler's context names the "
+          "endpoint of the connection being served and every event of a reverse call is an event of that endpoint (affinity); in any run of "
+          "any population under any interleaving the projection onto one connection is a Jrpc.Corr run of its own events (population "
+          "independence), so C02's ownership theorem and C18's after-exit theorem hold per connection: once a connection is gone nothing "
+          "stays registered, taken reverse calls have their answer, waiting ones can return the exiting error, and a reverse call started "
+          "later is never taken and fails at once; over HTTP / custom transports or without the server option nothing is found. Tie: "
+          "regenerated skeletons (WithReverseClient, ExtractReverseClient, handleWS, ServeHTTP, websocketClient + the Corr set) + scenarios: "
+          "1,2,3,5 clients with identity-returning reverse handlers, sequential / parallel / nested / aliased / failing / missing reverse calls; "
+          "loss (FIN, RST, close) before, during, inside the reverse request frame and inside the reverse response frame with the handler's or a "
+          "background context; absence over HTTP and without the option; both endpoints of every connection replayed through Jrpc.Corr.",
+  "design_ref": "DESIGN.md §6 C16",
+  "note": TB,
+  "technique": "Lean 4 theorems (frame/projection lemma over a product of LTSs, corollaries of the Corr invariants) + regenerated skeleton facts + hook-trace inclusion per endpoint + scenario monitors"},
  {"property_id": "C17",
   "text": "Theorems over a timed model of the two detectors of one connection (read deadline, main-loop idle timer) for every timeout T, "
           "activity gap G and local latency E and every interleaving of activity / renewal / re-arm / local traffic / time: if G + E < T then on "
